@@ -27,7 +27,7 @@ struct ClientCb : public Server::Client::ICallback, public Obj {
   long long toServer, serverGot; long long backlogHint; int fd = -1; bool backlog = false;
   void onRead() override; void onWrite() override; void onClosed() override;
 };
-struct ListenerCb : public Server::Listener::ICallback, public Obj { H* h; int slot; bool alive; Server::Listener* handle; int port; int pendingConnects; Server::Client::ICallback* onAccepted(Server::Client& client, uint32 ip, uint16 port) override; };
+struct ListenerCb : public Server::Listener::ICallback, public Obj { H* h; int slot; bool alive; Server::Listener* handle; int port; int pendingConnects; bool estEver = false; Server::Client::ICallback* onAccepted(Server::Client& client, uint32 ip, uint16 port) override; };
 struct EstCb : public Server::Establisher::ICallback, public Obj { H* h; int slot; bool alive; Server::Establisher* handle; bool expectConnect; bool done; Server::Client::ICallback* onConnected(Server::Client& client) override; void onAbolished() override; };
 
 struct H {
@@ -117,7 +117,7 @@ struct H {
   void newEstablisher(int slot, int liSlot) {
     if (est[slot]) return;
     EstCb* e = new EstCb; e->h = this; e->slot = slot; e->alive = true; e->done = false;
-    int port; if (liSlot >= 0 && listener[liSlot]) { port = listener[liSlot]->port; e->expectConnect = true; ++listener[liSlot]->pendingConnects; }
+    int port; if (liSlot >= 0 && listener[liSlot]) { port = listener[liSlot]->port; e->expectConnect = true; ++listener[liSlot]->pendingConnects; listener[liSlot]->estEver = true; }
     else {  // a port nobody listens on: bound by the harness (so no other process can take it) but not listening -> connection refused
       int sfd = socket(AF_INET, SOCK_STREAM, 0); sockaddr_in sa; memset(&sa, 0, sizeof sa); sa.sin_family = AF_INET; sa.sin_addr.s_addr = htonl(INADDR_LOOPBACK); sa.sin_port = 0;
       bind(sfd, (sockaddr*)&sa, sizeof sa); socklen_t sl = sizeof sa; getsockname(sfd, (sockaddr*)&sa, &sl); port = ntohs(sa.sin_port); { LedgerPause lp; looseFds.push_back(sfd); }
@@ -171,7 +171,7 @@ struct H {
       int n = 0; for (int i = 0; i < 4; ++i) { ClientCb* c = client[i]; if (c && !c->failedIo && !c->peerClosed) { peerClose(i); unsigned char z[8] = {1, 2, 3, 4, 5, 6, 7, 8}; c->cl->write(z, 8); if (!c->cl->write(z, 8)) { c->failedIo = true; ++n; } } }
       if (n >= 2) ctx->label("several_clients_fail_together");
     }
-    else if (nm == "r_none") {}
+    else if (nm == "r_none" || nm == "r_rmnew") {}
     else ctx->count("unknown_op");
   }
   // every write of the harness goes through here: a postponed rest is a backlog that the loop has to send and acknowledge with onWrite
@@ -179,6 +179,12 @@ struct H {
     usize postponed = 0;
     if (!c->cl->write(buf, (usize)n, &postponed)) { c->failedIo = true; ctx->label("write_failed"); return; }
     if (postponed > 0) { c->backlog = true; ctx->label("backlog_created"); }
+  }
+  // onAccepted / onConnected may refuse the new client by removing it and returning null (the documented way is returning null; the
+  // library also provides for remove() of a client that has no callback yet)
+  bool refuseByRemove() {
+    if (depth > 0 || nextReaction >= reactions.size() || reactions[nextReaction]->name != "r_rmnew") return false;
+    ++nextReaction; return true;
   }
   void react(int selfTimer, int selfClient) {
     if (nextReaction >= reactions.size() || depth > 0) return;
@@ -194,6 +200,9 @@ struct H {
     for (int i = 0; i < NT; ++i) if (!lenient && timer[i] && timer[i]->nextDue <= now()) { char d[160]; snprintf(d, sizeof d, "the loop goes idle at %lld although timer %d was due at %lld", now(), i, timer[i]->nextDue); fail("timer:not-activated", d); }
     for (int i = 0; i < NT; ++i) if (!lenient && timer[i] && timeout > 0 && now() + timeout > timer[i]->nextDue) { char d[200]; snprintf(d, sizeof d, "the loop sleeps %d ms from %lld, beyond the due time %lld of timer %d", timeout, now(), timer[i]->nextDue, i); fail("timer:sleeps-past-due", d); }
     if (timeout <= 0) return;
+    // a connection the harness itself made to a listener (connect() has returned: it sits in the accept queue) has to be accepted
+    // before the loop goes idle; listeners that establishers have connected to are left out (their connections complete on their own)
+    for (int i = 0; i < NLI; ++i) if (listener[i] && !listener[i]->estEver && listener[i]->pendingConnects > 0) fail("dispatch:acceptable-not-dispatched", "the loop goes idle although " + std::to_string(listener[i]->pendingConnects) + " connection(s) to listener " + std::to_string(i) + " wait to be accepted");
     for (int i = 0; i < NCL; ++i) if (client[i] && !client[i]->tcp) {
       ClientCb* c = client[i];
       if (!c->suspended && !c->failedIo && c->toServer > c->serverGot) { char d[160]; snprintf(d, sizeof d, "the loop goes idle although client %d is readable (%lld unread bytes) and registered for reading", i, c->toServer - c->serverGot); fail("dispatch:readable-not-dispatched", d); }
@@ -253,6 +262,7 @@ Server::Client::ICallback* ListenerCb::onAccepted(Server::Client& clientRef, uin
   ++h->callbacks; if (h->ctx->verbose) fprintf(stderr, "[%lld] listener %d onAccepted -> client %p\n", h->now(), slot, (void*)&clientRef); if (!alive) h->fail("removed:listener-callback", "onAccepted after remove() returned");
   if (pendingConnects <= 0) h->fail("dispatch:accept-without-connection", "onAccepted although nobody connected"); --pendingConnects;
   h->ctx->label("onAccepted");
+  if (h->refuseByRemove()) { h->srvp->remove(clientRef); h->ctx->label("accepted_client_removed_inside_onAccepted"); return nullptr; }
   int slotC = -1; for (int i = 4; i < NCL; ++i) if (!h->client[i]) { slotC = i; break; }
   if (slotC < 0) return nullptr;   // refuse: the server deletes the client
   ClientCb* c = new ClientCb; c->h = h; c->slot = slotC; c->alive = true; c->suspended = false; c->tcp = true; c->peerClosed = false; c->closedSeen = false; c->failedIo = false; c->toServer = c->serverGot = 0; c->backlogHint = 0; c->cl = &clientRef; c->peerSock = nullptr;
@@ -269,7 +279,8 @@ Server::Client::ICallback* EstCb::onConnected(Server::Client& clientRef) {
   if (done) h->fail("dispatch:establisher-twice", "an establisher was notified twice"); done = true;
   if (!expectConnect) h->fail("dispatch:connected-to-closed-port", "onConnected for a port nobody listens on");
   h->ctx->label("onConnected");
-  (void)clientRef; return nullptr;   // the harness does not keep this side: the server deletes the client again
+  if (h->refuseByRemove()) { h->srvp->remove(clientRef); h->ctx->label("connected_client_removed_inside_onConnected"); }
+  return nullptr;   // the harness does not keep this side: the server deletes the client again
 }
 void EstCb::onAbolished() {
   ++h->callbacks; if (!alive) h->fail("removed:establisher-callback", "onAbolished after remove() returned");
@@ -285,8 +296,8 @@ void pbt_generate(Rng& r, int size, Case& c) {
   int n = 3 + (int)r.below((uint64_t)size + 1), nr = (int)r.below((uint64_t)size + 2), np = (int)r.below(12);
   static const char* tops[] = {"timer", "rmtimer", "client", "rmclient", "peerwrite", "peerclose", "suspend", "resume", "listener", "rmlistener", "incoming", "establish", "rmest", "interrupt", "cwrite", "run", "failall", "bigwrite", "failrm"};
   static const int wt[] = {22, 8, 10, 5, 12, 3, 3, 3, 4, 2, 5, 4, 2, 3, 4, 16, 3, 6, 3};
-  static const char* reacts[] = {"r_none", "r_timer", "r_rmtimer", "r_client", "r_rmclient", "r_peerwrite", "r_peerclose", "r_suspend", "r_resume", "r_rmlistener", "r_incoming", "r_rmest", "r_interrupt", "r_cwrite", "r_bigwrite", "r_failrm"};
-  static const int wr[] = {10, 14, 22, 4, 12, 8, 3, 4, 4, 3, 3, 3, 4, 4, 6, 2};
+  static const char* reacts[] = {"r_none", "r_timer", "r_rmtimer", "r_client", "r_rmclient", "r_peerwrite", "r_peerclose", "r_suspend", "r_resume", "r_rmlistener", "r_incoming", "r_rmest", "r_interrupt", "r_cwrite", "r_bigwrite", "r_failrm", "r_rmnew"};
+  static const int wr[] = {10, 14, 22, 4, 12, 8, 3, 4, 4, 3, 3, 3, 4, 4, 6, 2, 5};
   bool burst = r.chance(40);   // many timers created in the same millisecond with equal intervals
   for (int k = 0; k < n; ++k) {
     int o = r.weighted(wt, 19);
@@ -294,7 +305,7 @@ void pbt_generate(Rng& r, int size, Case& c) {
     if (burst && o == 0) b = (long)(r.chance(70) ? 2 : r.below(7));
     c.add(tops[o], a, b, (long)r.below(o == 17 ? 1024 : 40));
   }
-  for (int k = 0; k < nr; ++k) { int o = r.weighted(wr, 16); c.add(reacts[o], (long)r.below(64), (long)r.below(64), (long)r.below(1 << 10)); }
+  for (int k = 0; k < nr; ++k) { int o = r.weighted(wr, 17); c.add(reacts[o], (long)r.below(64), (long)r.below(64), (long)r.below(1 << 10)); }
   { int nf = (int)r.below(8); for (int k = 0; k < nf; ++k) c.add("fault", (long)r.below(3), (long)(1 + r.below(30))); }
   for (int k = 0; k < np; ++k) c.add("perm", (long)r.below(1 << 16));
 }
